@@ -101,7 +101,8 @@ Fixpoint de_struct (fields : list (string * string)) (o : jobj) : option (list (
 
 Definition http_expr (e : string) (s : list (string * de)) : option fv :=
   let fld n := match the (lookup n s) with Some (DVal v) => Some v | _ => None end in
-  if String.eqb e "req.key.clone()" then fld "key"%string
+  (* equivalent spellings a refactoring may choose are accepted: only the MEANING of the mapping is pinned *)
+  if String.eqb e "req.key.clone()" || String.eqb e "req.key" || String.eqb e "req.key.to_string()" || String.eqb e "req.key.to_owned()" then fld "key"%string
   else if String.eqb e "req.max_burst" then fld "max_burst"%string
   else if String.eqb e "req.count_per_period" then fld "count_per_period"%string
   else if String.eqb e "req.period" then fld "period"%string
@@ -141,11 +142,11 @@ Definition http_render (t : tresp) : option jobj := http_render_fields TYPES_RES
 (* ------------------------------------------------------------------ gRPC / protobuf *)
 Record greq := mkgreq { g_key : bytes; g_B : Z; g_count : Z; g_period : Z; g_q : Z }.     (* int32 fields, absent = 0 *)
 Definition grpc_req_expr (e : string) (r : greq) : option fv :=
-  if String.eqb e "req.key.clone()" then Some (VS (g_key r))
-  else if String.eqb e "req.max_burstasi64" then Some (VZ (g_B r))
-  else if String.eqb e "req.count_per_periodasi64" then Some (VZ (g_count r))
-  else if String.eqb e "req.periodasi64" then Some (VZ (g_period r))
-  else if String.eqb e "req.quantityasi64" then Some (VZ (g_q r))
+  if String.eqb e "req.key.clone()" || String.eqb e "req.key" || String.eqb e "req.key.to_string()" || String.eqb e "req.key.to_owned()" then Some (VS (g_key r))
+  else if String.eqb e "req.max_burstasi64" || String.eqb e "i64::from(req.max_burst)" || String.eqb e "req.max_burst.into()" then Some (VZ (g_B r))
+  else if String.eqb e "req.count_per_periodasi64" || String.eqb e "i64::from(req.count_per_period)" || String.eqb e "req.count_per_period.into()" then Some (VZ (g_count r))
+  else if String.eqb e "req.periodasi64" || String.eqb e "i64::from(req.period)" || String.eqb e "req.period.into()" then Some (VZ (g_period r))
+  else if String.eqb e "req.quantityasi64" || String.eqb e "i64::from(req.quantity)" || String.eqb e "req.quantity.into()" then Some (VZ (g_q r))
   else None.
 Definition grpc_decode (r : greq) : option treq := build_treq GRPC_REQ grpc_req_expr r.
 
